@@ -103,6 +103,11 @@ def build():
     defs.append(("demux_single_removed", "bool", "true"))
     one(r"status\.state\s*=\s*if\s+status\.idle_timeout\.is_zero\(\)\s*\{\s*ConnState::IdleTimeout\s*\}\s*else\s*\{\s*ConnState::Idle\(Instant::now\(\)\)\s*\}",
         dm, "demux_reply idle transition")
+    i_reset = [m.start() for m in re.finditer(r"status\.state\s*=\s*ConnState::Active\(Some\(Instant::now\(\)\)\);", dm)]
+    i_lookup = dm.find("query_vec.try_remove(id)")
+    if len(i_reset) != 1 or i_lookup < 0:
+        raise GenError("demux_reply: expected exactly one response-timer reset and the ID lookup")
+    defs.append(("timer_reset_requires_known_id", "bool", "true" if i_reset[0] > i_lookup else "false"))
     er = fn_body(st, "error")
     one(r"for\s+\(mut\s+req,\s*_\)\s+in\s+query_vec\.drain\(\)\s*\{\s*_\s*=\s*req\.sender\.send\(Err\(error\.clone\(\)\)\)\.await;\s*\}", er,
         "Transport::error drains every waiter")
